@@ -3,7 +3,7 @@
    pending delay; chains of transitions by induction.  All statements here are over Q. *)
 From Coq Require Import ZArith QArith Qround Qabs Bool List Lia Lqa.
 From Bardolph Require Import Base.PyNum Num.UnitsQ Gen.ParamGen Gen.ColorsysGen Gen.UnitsGen Gen.MachineUnitsGen
-     Num.UnitsFloat Num.Switch Num.UnitsQProofs Num.PathsProofs.
+     Num.UnitsFloat Num.Switch Num.UnitsQProofs Num.PathsProofs Num.SwitchProofs.
 Import ListNotations.
 Open Scope Q_scope.
 
@@ -237,4 +237,187 @@ Proof.
         assert (P : Qltb 0 (t / (1000 # 1)) = false).
         { apply Qltb_false. apply Qle_shift_div_r; lra. }
         rewrite P. left. reflexivity.
+Qed.
+
+(* ---------------------------------------------------------------- relations between runs *)
+
+Definition sent_rel (a b : sent) : Prop :=
+  same_colour (sent_color a) (sent_color b) /\ s_duration a = s_duration b.
+
+Lemma hue_equiv_sym : forall a b, hue_equiv a b -> hue_equiv b a.
+Proof. intros a b [H | [[H1 H2] | [H1 H2]]]; [left; auto | right; right; auto | right; left; auto]. Qed.
+
+Lemma hue_equiv_trans : forall a b c, hue_equiv a b -> hue_equiv b c -> hue_equiv a c.
+Proof.
+  intros a b c [H | [[H1 H2] | [H1 H2]]] [G | [[G1 G2] | [G1 G2]]]; subst; unfold hue_equiv; try lia;
+    try (left; reflexivity); try (right; left; split; reflexivity); try (right; right; split; reflexivity).
+Qed.
+
+Lemma same_hsbk_colour : forall a b, same_hsbk a b -> same_colour a b.
+Proof. intros a b [H0 [H1 [H2 H3]]]. split; [exact H3 | right; right; auto]. Qed.
+
+Lemma same_colour_refl : forall a, same_colour a a.
+Proof. intro a. split; [reflexivity | right; right; repeat split; left; reflexivity]. Qed.
+
+Lemma same_colour_trans : forall a b c, same_colour a b -> same_colour b c -> same_colour a c.
+Proof.
+  intros a b c [K1 H1] [K2 H2]. split; [congruence |].
+  destruct H1 as [[A1 A2] | [[A1 [A2 A3]] | [A1 [A2 A3]]]];
+  destruct H2 as [[B1 B2] | [[B1 [B2 B3]] | [B1 [B2 B3]]]].
+  - left; split; assumption.
+  - left; split; [assumption | lia].
+  - left; split; [assumption | lia].
+  - left; split; lia.
+  - right; left; repeat split; lia.
+  - right; left; repeat split; lia.
+  - left; split; lia.
+  - right; left; repeat split; lia.
+  - right; right. repeat split; try lia. eapply hue_equiv_trans; eassumption.
+Qed.
+
+Lemma sent_rel_refl : forall a, sent_rel a a.
+Proof. intro a. split; [apply same_colour_refl | reflexivity]. Qed.
+
+Lemma sent_rel_trans : forall a b c, sent_rel a b -> sent_rel b c -> sent_rel a c.
+Proof. intros a b c [H1 H2] [G1 G2]. split; [eapply same_colour_trans; eassumption | congruence]. Qed.
+
+Lemma delay_close_refl : forall a, delay_close a a.
+Proof. intro a. left. reflexivity. Qed.
+
+Lemma delay_close_trans : forall a b c, delay_close a b -> delay_close b c -> delay_close a c.
+Proof.
+  intros a b c [H | [H1 [H2 H3]]] [G | [G1 [G2 G3]]].
+  - left. rewrite H. exact G.
+  - right. rewrite H. auto.
+  - right. rewrite <- G. auto.
+  - right. auto.
+Qed.
+
+(* ---------------------------------------------------------------- chains *)
+
+(* one transition does what the property asks, and leaves the registers in range *)
+Definition step_ok (from to : unit_mode) : Prop :=
+  forall r : regs Q, r_mode r = from -> valid_regs r ->
+    valid_regs (switch_Q r to) /\
+    sent_rel (set_transmits_Q (switch_Q r to)) (set_transmits_Q r) /\
+    delay_close (delay_ms (switch_Q r to)) (delay_ms r).
+
+Lemma switch_Q_mode : forall r to, r_mode (switch_Q r to) = to.
+Proof. intros r to. apply (g_switch_mode Q apply_conv_Q time_raw_Q time_logical_Q). Qed.
+
+(* any chain of transitions among modes for which every single transition is in order *)
+Theorem chain_from_steps : forall (allowed : unit_mode -> Prop),
+  (forall from to, allowed from -> allowed to -> step_ok from to) ->
+  forall (l : list unit_mode) (r : regs Q),
+    allowed (r_mode r) -> Forall allowed l -> valid_regs r ->
+    valid_regs (switch_chain_Q r l) /\
+    sent_rel (set_transmits_Q (switch_chain_Q r l)) (set_transmits_Q r) /\
+    delay_close (delay_ms (switch_chain_Q r l)) (delay_ms r).
+Proof.
+  intros allowed Hstep l. induction l as [| to l IH]; intros r Ha Hl V.
+  - simpl. split; [exact V |]. split; [apply sent_rel_refl | apply delay_close_refl].
+  - inversion Hl as [| x l' Hto Hl']; subst.
+    destruct (Hstep (r_mode r) to Ha Hto r eq_refl V) as [V1 [S1 D1]].
+    unfold switch_chain_Q, g_switch_chain. simpl.
+    change (fold_left (g_switch Q apply_conv_Q time_raw_Q time_logical_Q) l
+              (g_switch Q apply_conv_Q time_raw_Q time_logical_Q r to))
+      with (switch_chain_Q (switch_Q r to) l).
+    assert (Ha1 : allowed (r_mode (switch_Q r to))) by (rewrite switch_Q_mode; exact Hto).
+    destruct (IH (switch_Q r to) Ha1 Hl' V1) as [V2 [S2 D2]].
+    split; [exact V2 |]. split.
+    + eapply sent_rel_trans; eassumption.
+    + eapply delay_close_trans; eassumption.
+Qed.
+
+(* ---------------------------------------------------------------- the single transitions *)
+
+Lemma step_same : forall m, step_ok m m.
+Proof.
+  intros m r Hm V. unfold switch_Q. rewrite <- Hm.
+  rewrite (g_switch_same_mode Q apply_conv_Q time_raw_Q time_logical_Q r).
+  split; [exact V |]. split; [apply sent_rel_refl | apply delay_close_refl].
+Qed.
+
+Lemma py_fmod_Q_range : forall x y, 0 < y -> 0 <= py_fmod_Q x y /\ py_fmod_Q x y < y.
+Proof.
+  intros x y Hy. unfold py_fmod_Q. destruct (Qfloor_bounds (x / y)) as [F1 F2].
+  set (f := inject_Z (Qfloor (x / y))) in *.
+  assert (E : x == (x / y) * y) by (field; lra).
+  split.
+  - assert (f * y <= (x / y) * y) by (apply Qmult_le_compat_r; lra). lra.
+  - assert ((x / y) * y < (f + 1) * y) by (apply Qmult_lt_compat_r; lra). lra.
+Qed.
+
+Lemma hue_formula_range : forall H, 0 <= hue_formula H /\ hue_formula H <= 65535.
+Proof.
+  intro H. unfold hue_formula.
+  match goal with |- context [if ?b then _ else _] => destruct b end; [lra |].
+  destruct (py_fmod_Q_range H (360 # 1) ltac:(lra)) as [A B]. qconst. lra.
+Qed.
+
+Lemma pct_to_raw_Q_range : forall P, 0 <= P -> P <= 100 -> 0 <= pct_to_raw_Q P /\ pct_to_raw_Q P <= 65535.
+Proof.
+  intros P H0 H1. unfold pct_to_raw_Q.
+  match goal with |- context [if ?b then _ else _] => destruct b end; [lra |]. qconst. lra.
+Qed.
+
+Lemma step_logical_to_raw : step_ok LOGICAL RAW.
+Proof.
+  intros r Hm V. split; [| split].
+  - destruct r as [h s b k rd gr bl d t m]. simpl in Hm. subst m.
+    destruct V as [Vk [Vd [Vt [Vh0 [Vh1 [Vs0 [Vs1 [Vb0 Vb1]]]]]]]]. simpl in *.
+    unfold switch_Q, g_switch, valid_regs; simpl. unfold_regs.
+    unfold logical_to_raw_Q; simpl. fold (hue_formula h).
+    destruct (hue_formula_range h) as [A B].
+    destruct (pct_to_raw_Q_range s Vs0 Vs1) as [C D].
+    destruct (pct_to_raw_Q_range b Vb0 Vb1) as [E F].
+    unfold time_raw_Q. repeat split; try assumption; try lra.
+  - rewrite switch_to_raw_preserves_Q. apply sent_rel_refl.
+  - left. apply switch_to_raw_delay_Q. rewrite Hm. discriminate.
+Qed.
+
+Lemma step_raw_to_logical : step_ok RAW LOGICAL.
+Proof.
+  intros r Hm V. destruct (switch_raw_to_logical_Q r Hm V) as [S [D W]].
+  split; [| split].
+  - destruct r as [h s b k rd gr bl d t m]. simpl in Hm. subst m.
+    destruct V as [Vk [Vd [Vt [Vh0 [Vh1 [Vs0 [Vs1 [Vb0 Vb1]]]]]]]]. simpl in *.
+    unfold switch_Q, g_switch, valid_regs; simpl. unfold_regs.
+    unfold raw_to_logical_Q; simpl.
+    rewrite (py_max_Q_nonneg k Vk).
+    assert (T : forall x, 0 <= x -> 0 <= time_logical_Q x).
+    { intros x Hx. unfold time_logical_Q.
+      match goal with |- context [if ?c then _ else _] => destruct c end; [lra | qconst; lra]. }
+    assert (P : forall x, 0 <= x -> x <= 65535 ->
+              0 <= py_max_Q (if Qleb (65535 # 1) x then 100 # 1 else x / (65535 # 1) * (100 # 1)) (0 # 1) /\
+              py_max_Q (if Qleb (65535 # 1) x then 100 # 1 else x / (65535 # 1) * (100 # 1)) (0 # 1) <= 100).
+    { intros x X0 X1. destruct (Qleb (65535 # 1) x).
+      - rewrite py_max_Q_nonneg by lra. lra.
+      - rewrite py_max_Q_nonneg by (qconst; lra). qconst. lra. }
+    destruct (P s Vs0 Vs1) as [P1 P2]. destruct (P b Vb0 Vb1) as [P3 P4].
+    rewrite (py_max_Q_nonneg (h / (65535 # 1) * (360 # 1))) by (qconst; lra).
+    repeat split; try assumption; try (apply T; assumption); qconst; lra.
+  - split; [apply same_hsbk_colour; exact S | exact D].
+  - exact W.
+Qed.
+
+Definition no_rgb (m : unit_mode) : Prop := m <> RGB.
+
+Lemma steps_without_rgb : forall from to, no_rgb from -> no_rgb to -> step_ok from to.
+Proof.
+  intros from to Hf Ht. destruct from, to; try (contradiction Hf; reflexivity); try (contradiction Ht; reflexivity).
+  - apply step_same.
+  - apply step_logical_to_raw.
+  - apply step_raw_to_logical.
+  - apply step_same.
+Qed.
+
+(* any chain of `units logical` / `units raw` statements *)
+Theorem switch_chain_logical_raw_Q : forall (l : list unit_mode) (r : regs Q),
+  r_mode r <> RGB -> Forall no_rgb l -> valid_regs r ->
+  sent_rel (set_transmits_Q (switch_chain_Q r l)) (set_transmits_Q r) /\
+  delay_close (delay_ms (switch_chain_Q r l)) (delay_ms r).
+Proof.
+  intros l r Hm Hl V.
+  destruct (chain_from_steps no_rgb steps_without_rgb l r Hm Hl V) as [_ H]. exact H.
 Qed.
